@@ -110,3 +110,31 @@ contract(
     opaque_methods={"poke": Bool},
     inline=COERCE,
 )
+
+
+# ---- C20: the json filter emits text that decodes to its input ------------------------------------------------------------------
+from pyvc import intrinsics_lib as _IL
+from pyvc.specs import spec
+from pyvc.values import SAny
+
+
+@spec("json_loads", None)
+def _json_loads(ex, s):
+    return SAny(_IL.F_json_loads(ex.to_str_term(s)))
+
+
+@spec("json_value", None)
+def _json_value(ex, v):
+    return SAny(_IL.json_value(ex.intr, v))
+
+
+contract(
+    "liquid2.builtin.filters.misc:JSON.__call__",
+    props=["C20", "C02"],
+    params={"self": Rec("JSON", _module="liquid2.builtin.filters.misc", default=Any_),
+            "left": Union(Int, Str, TrueT, FalseT, NoneT, Float, ListOf("any"), Any_), "indent": Union(NoneT, Int)},
+    globals_={"MAX_STR_INT": Int},
+    pre=["MAX_STR_INT == 0 or MAX_STR_INT >= 640"],
+    post=["json_loads(result) == json_value(left)"],
+    raises={"LiquidTypeError": None},
+)
